@@ -1268,3 +1268,49 @@ func init() {
 			}
 		}})
 }
+
+func init() {
+	register(&Rule{ID: "J.acc", Min: 6, Text: "every size change is accounted: in package json (the editing proxies) each resource.DataSize that a mutating call of the CRDT model returns (the diff of Text.Edit/Style, Tree.Edit/Style/RemoveStyle, …) flows into Context.Acc in the same function — the editing copy's accumulated size is what Document.Update compares with the size limit, so a proxy that forgets to account (one of two sibling entry points) lets an update over the limit through: it runs on the document, joins the pending changes and lands on the undo stack",
+		Run: func(x *Ctx) {
+			acc := x.P.FnObj(changePkg + ".(*Context).Acc")
+			dsT := x.P.Named("pkg/document/resource.DataSize")
+			if acc == nil || dsT == nil {
+				x.C.Unresolved(x.id(), "change.Context.Acc / resource.DataSize")
+				return
+			}
+			n := 0
+			for _, fn := range x.P.FuncsIn("pkg/document/json") {
+				accs := callsToIn(fn, acc)
+				i := 0
+				for _, c := range prog.CallsIn(fn) {
+					o := prog.CallObj(c)
+					if o == nil || o.Pkg() == nil || !strings.HasSuffix(o.Pkg().Path(), "/"+crdtPkg) || c.Value() == nil {
+						continue
+					}
+					var diffs []ssa.Value
+					if isNamed(c.Value().Type(), dsT) {
+						diffs = append(diffs, c.Value())
+					}
+					for _, r := range *c.Value().Referrers() {
+						if ex, ok := r.(*ssa.Extract); ok && isNamed(ex.Type(), dsT) {
+							diffs = append(diffs, ex)
+						}
+					}
+					for _, d := range diffs {
+						i++
+						n++
+						ok := false
+						for _, a := range accs {
+							if prog.DependsOn(paramArg(a, 0), func(w ssa.Value) bool { return w == d }) {
+								ok = true
+							}
+						}
+						x.check(ok, fmt.Sprintf("func=%s diff-of=%s#%d accounted", prog.FnName(fn), o.Name(), i), x.pos(c), "the size diff reaches Context.Acc", "the size diff returned by "+o.Name()+" never reaches Context.Acc: the editing copy's size stays behind and the size limit is not enforced for this entry point")
+					}
+				}
+			}
+			if n < 6 {
+				x.C.Vacuous(x.id()+" size diffs", n, 6)
+			}
+		}})
+}
